@@ -198,7 +198,11 @@ class ShapelyBoundary(BoundaryDomain):
         super().__init__(domain)
         outline = self.domain.outline()
         self.normal_list = self._compute_normals(outline)
-        self.tol = 1.0e-06
+        # tolerance for deciding on which edge a point lies. The points are float32,
+        # their rounding error grows with the size of the coordinates (not with the
+        # size of the polygon), so the tolerance is relative to the largest coordinate.
+        largest_coordinate = max(abs(bound) for bound in self.domain.polygon.bounds)
+        self.tol = 1.0e-06 * max(1.0, largest_coordinate)
 
     def __call__(self, **data):
         return self
